@@ -251,8 +251,17 @@ func Render(f File) (string, []RuleInfo) {
 			}
 			var exprLines []string
 			exprOff := 0
+			multi := strings.Contains(r.Expr, "\n")
+			exprFirst := r.ExprFirst && !multi
 			switch {
-			case r.ExprStyle == 3 && !r.ExprFirst && !strings.Contains(r.Expr, "\n"):
+			case multi:
+				// multi-line expressions are always literal blocks (|- : no trailing newline in the value)
+				exprLines = []string{"expr: |-"}
+				for _, l := range strings.Split(r.Expr, "\n") {
+					exprLines = append(exprLines, "  "+l)
+				}
+				exprOff = 1
+			case r.ExprStyle == 3 && !r.ExprFirst:
 				exprLines = []string{"expr: |-", "  " + r.Expr}
 				exprOff = 1
 			case r.ExprStyle == 2:
@@ -264,7 +273,7 @@ func Render(f File) (string, []RuleInfo) {
 			}
 			var first []string
 			var second []string
-			if r.ExprFirst {
+			if exprFirst {
 				first, second = exprLines, []string{nameLine}
 			} else {
 				first, second = []string{nameLine}, exprLines
@@ -277,7 +286,7 @@ func Render(f File) (string, []RuleInfo) {
 				} else {
 					n = w.ln(kpad + l)
 				}
-				if r.ExprFirst && i == exprOff {
+				if exprFirst && i == exprOff {
 					info.ExprLine = n
 				}
 				info.Last = n
@@ -287,7 +296,7 @@ func Render(f File) (string, []RuleInfo) {
 			}
 			for i, l := range second {
 				n := w.ln(kpad + l)
-				if !r.ExprFirst && i == exprOff {
+				if !exprFirst && i == exprOff {
 					info.ExprLine = n
 				}
 				info.Last = n
